@@ -33,9 +33,13 @@ type POp struct {
 	// reset: A mode (0 nil, 1 copy path, 2 alias path, 3 huge capacity,
 	//        4 oversize), B length.
 	// probe: A anchor, B length, C kind (0 ReadAt, 1 ByteAt, 2 PeekAt).
-	A     int     `json:"a,omitempty"`
-	B     int     `json:"b,omitempty"`
-	C     int     `json:"c,omitempty"`
+	A int `json:"a,omitempty"`
+	B int `json:"b,omitempty"`
+	C int `json:"c,omitempty"`
+	// wparse (Parse through lz.Wrap): A flags, B=1 nil block, C bit 0: size
+	// is free+D instead of D, bit 1: WrappedParser.Reset(reader) first; D
+	// size of the data the reader holds, Steps its chunk/fault plan.
+	D     int     `json:"d,omitempty"`
 	Steps []RStep `json:"steps,omitempty"`
 }
 
@@ -187,6 +191,107 @@ type PEvent struct {
 	Desync string
 	// ResetOK tells whether Reset was expected to succeed.
 	ResetOversize bool
+	// Wrapped marks a call made by a WrappedParser (seen by the spy).
+	Wrapped bool
+	// wparse: number of inner calls and the last of them
+	InnerCalls int
+	LastInner  *PEvent
+}
+
+// spyParser sits between a WrappedParser and the parser under test. Every
+// call the WrappedParser makes is executed, shown to the observer and applied
+// to the model before the WrappedParser sees the result.
+type spyParser struct {
+	lz.Parser
+	st    *PState
+	obs   PObserver
+	rd    *planReader
+	i     int
+	calls int
+	last  *PEvent
+	// first violation (or silent stop) seen by an inner event
+	class, msg string
+	stop       bool
+}
+
+func (s *spyParser) event(op *POp) *PEvent {
+	st := s.st
+	s.calls++
+	return &PEvent{I: s.i, Op: op, Wrapped: true, PreFed: int64(len(st.Fed)), PreOff: st.Off, PreW: st.W}
+}
+
+func (s *spyParser) emit(ev *PEvent) {
+	s.last = ev
+	if !s.stop {
+		if c, m, stop := s.st.finish(ev, s.obs); stop {
+			s.class, s.msg, s.stop = c, m, true
+		}
+	}
+	if ev.Panic != nil {
+		panic(ev.Panic)
+	}
+}
+
+func (s *spyParser) Parse(blk *lz.Block, flags int) (n int, err error) {
+	if s.stop {
+		return s.Parser.Parse(blk, flags)
+	}
+	op := &POp{K: "parse", A: flags}
+	if blk == nil {
+		op.B = 1
+	}
+	ev := s.event(op)
+	ev.Flags, ev.Nil, ev.Blk = flags, blk == nil, blk
+	ev.Panic = call(func() { n, err = s.Parser.Parse(blk, flags) })
+	ev.N, ev.Err = int64(n), err
+	if ev.Panic == nil && err == nil && blk != nil {
+		nd, xerr := ref.Expand(append([]byte(nil), s.st.Dec...), blk.Sequences, blk.Literals)
+		if xerr != nil {
+			ev.ExpandErr = xerr
+		} else {
+			ev.NewDec = nd
+		}
+	}
+	s.emit(ev)
+	return n, err
+}
+
+func (s *spyParser) Shrink() (delta int) {
+	if s.stop {
+		return s.Parser.Shrink()
+	}
+	ev := s.event(&POp{K: "shrink"})
+	ev.Panic = call(func() { delta = s.Parser.Shrink() })
+	ev.Delta = delta
+	s.emit(ev)
+	return delta
+}
+
+func (s *spyParser) ReadFrom(r io.Reader) (n int64, err error) {
+	if s.stop || r != io.Reader(s.rd) {
+		return s.Parser.ReadFrom(r)
+	}
+	ev := s.event(&POp{K: "readfrom"})
+	rd := s.rd
+	h, e, j, c := len(rd.handed), rd.nEOF, rd.nInj, rd.calls
+	ev.Panic = call(func() { n, err = s.Parser.ReadFrom(r) })
+	ev.N, ev.Err = n, err
+	// the part of the reader's record that belongs to this call
+	ev.Reader = &planReader{handed: rd.handed[h:], nEOF: rd.nEOF - e, nInj: rd.nInj - j, calls: rd.calls - c}
+	s.emit(ev)
+	return n, err
+}
+
+func (s *spyParser) Reset(data []byte) (err error) {
+	if s.stop {
+		return s.Parser.Reset(data)
+	}
+	ev := s.event(&POp{K: "reset"})
+	ev.Given = data
+	ev.Panic = call(func() { err = s.Parser.Reset(data) })
+	ev.Err = err
+	s.emit(ev)
+	return err
 }
 
 // PObserver is implemented by the property monitors.
@@ -401,6 +506,41 @@ func RunHistory(st *PState, pc *PCase, obs PObserver) (class, msg string, at int
 					}
 				}
 			}
+		case "wparse":
+			// Parse through lz.Wrap: a spy between the WrappedParser and the
+			// parser shows every inner Parse/Shrink/ReadFrom/Reset to the
+			// observer online, exactly like the direct operations
+			sz := int64(op.D)
+			if op.C&1 != 0 {
+				sz += st.Free()
+			}
+			rd := &planReader{data: st.take(sz), steps: op.Steps}
+			spy := &spyParser{Parser: p, st: st, obs: obs, rd: rd, i: i}
+			wp := lz.Wrap(rd, spy)
+			ev.Flags = op.A
+			ev.Nil = op.B == 1
+			ev.Reader = rd
+			var b *lz.Block
+			if !ev.Nil {
+				blk.Sequences = append(blk.Sequences[:0], sentinelSeq)
+				blk.Literals = append(blk.Literals[:0], 0xAA, 0x55)
+				b = blk
+				ev.Blk = blk
+			}
+			ev.Panic = call(func() {
+				if op.C&2 != 0 {
+					wp.Reset(rd)
+				}
+				n, err := wp.Parse(b, ev.Flags)
+				ev.N, ev.Err = int64(n), err
+			})
+			if spy.stop {
+				return spy.class, spy.msg, i
+			}
+			ev.InnerCalls = spy.calls
+			ev.LastInner = spy.last
+			// the wrapped call changes nothing beyond its inner calls
+			ev.PreFed, ev.PreOff, ev.PreW = int64(len(st.Fed)), st.Off, st.W
 		case "other":
 			// a different instance of the same parser type is created and
 			// used in between: instances must not share state
@@ -507,13 +647,26 @@ func RunHistory(st *PState, pc *PCase, obs PObserver) (class, msg string, at int
 			panic("unknown op " + op.K)
 		}
 
+		if c, m, stop := st.finish(ev, obs); stop {
+			return c, m, i
+		}
+	}
+	return "", "", len(pc.Ops)
+}
+
+// finish shows an executed operation to the observer and then updates the
+// model by the trusted rules. stop is set if the history cannot go on
+// (violation, panic, or the model cannot follow).
+func (st *PState) finish(ev *PEvent, obs PObserver) (class, msg string, stop bool) {
+	{
+		op, i, p := ev.Op, ev.I, st.P
 		if c, m := obs.Observe(ev, st); c != "" {
-			return c, fmt.Sprintf("op %d (%s): %s", i, opString(op), m), i
+			return c, fmt.Sprintf("op %d (%s): %s", i, opString(op), m), true
 		}
 		if ev.Panic != nil {
 			// every monitor treats panics itself; if one ignores them the
 			// history cannot continue
-			return "", "", i
+			return "", "", true
 		}
 
 		// ---- update the model by the trusted rules ------------------
@@ -589,10 +742,10 @@ func RunHistory(st *PState, pc *PCase, obs PObserver) (class, msg string, at int
 			st.Dec, st.Off, st.W, st.Skipped = st.Dec[:0], 0, 0, 0
 		}
 		if ev.Desync != "" {
-			return "", "desync: " + ev.Desync, i
+			return "", "desync: " + ev.Desync, true
 		}
 	}
-	return "", "", len(pc.Ops)
+	return "", "", false
 }
 
 func opString(op *POp) string {
@@ -604,6 +757,9 @@ func opString(op *POp) string {
 // HWeights are the relative weights of the operations.
 type HWeights struct {
 	Write, ReadFrom, Parse, ParseNTL, ParseNil, Shrink, Reset, ResetData, Probe int
+	// WParse: Parse through lz.Wrap with its own reader (flags and nil
+	// block in the proportions of Parse/ParseNTL/ParseNil).
+	WParse int
 	// Other drives a second instance of the same parser type in between
 	// (default weight 2; set to -1 to disable).
 	Other int
@@ -613,7 +769,7 @@ type HWeights struct {
 
 // DefaultWeights is the mix used by the round-trip style properties.
 var DefaultWeights = HWeights{Write: 18, ReadFrom: 10, Parse: 30, ParseNTL: 12,
-	ParseNil: 0, Shrink: 12, Reset: 1, ResetData: 2, Probe: 0, Faults: true}
+	ParseNil: 0, Shrink: 12, Reset: 1, ResetData: 2, Probe: 0, WParse: 10, Faults: true}
 
 func genSize(r *rand.Rand) (a, b int) {
 	switch r.Intn(10) {
@@ -679,7 +835,7 @@ func GenOps(r *rand.Rand, n int, w HWeights) []POp {
 	if w.Other < 0 {
 		w.Other = 0
 	}
-	total := w.Write + w.ReadFrom + w.Parse + w.ParseNTL + w.ParseNil + w.Shrink + w.Reset + w.ResetData + w.Probe + w.Other
+	total := w.Write + w.ReadFrom + w.Parse + w.ParseNTL + w.ParseNil + w.Shrink + w.Reset + w.ResetData + w.Probe + w.Other + w.WParse
 	ops := make([]POp, 0, n)
 	// a history starts with data
 	for len(ops) < n {
@@ -711,12 +867,33 @@ func GenOps(r *rand.Rand, n int, w HWeights) []POp {
 				op.C = 2 | r.Intn(1000)<<2
 				op.B = []int{math.MaxInt64, math.MaxInt64 - 1, math.MaxInt64 - r.Intn(400), 1 << 62, 1 << 32, 1<<31 - 1, 1 << 31}[r.Intn(7)]
 			}
+		case k < w.Write+w.ReadFrom+w.Parse+w.ParseNTL+w.ParseNil+w.Shrink+w.Reset+w.ResetData+w.Probe+w.WParse:
+			a, b := genSize(r)
+			op = POp{K: "wparse", C: a, D: b, Steps: GenReadPlan(r, w.Faults)}
+			if a == 1 && b < 0 {
+				op.D = 0
+			}
+			if pn := w.Parse + w.ParseNTL + w.ParseNil; pn > 0 {
+				switch j := r.Intn(pn); {
+				case j < w.Parse:
+				case j < w.Parse+w.ParseNTL:
+					op.A = lz.NoTrailingLiterals
+				default:
+					op.B, op.A = 1, r.Intn(2)
+				}
+			}
+			if r.Intn(12) == 0 {
+				op.C |= 2
+			}
 		default:
 			op = POp{K: "other", A: r.Intn(1000), B: r.Intn(1000)}
 		}
 		ops = append(ops, op)
 		// parse calls come in bursts so that buffers are drained
-		if op.K == "parse" && r.Intn(3) > 0 {
+		if (op.K == "parse" || op.K == "wparse") && r.Intn(3) > 0 {
+			if op.K == "wparse" {
+				op.C &^= 2 // only the first call of a burst resets
+			}
 			for j, m := 0, r.Intn(6); j < m && len(ops) < n; j++ {
 				ops = append(ops, op)
 			}
